@@ -81,7 +81,12 @@ let () =
             (match spec_verdict (ptoks_of ts) with
              | VTree e -> print_string ("S E " ^ dump e ^ "|" ^ dump e ^ "\n")
              | VRejected -> print_string "S E UNPARSEABLE\n"
-             | VOutside -> print_string "S E OUTSIDE-THE-REFERENCE-FRAGMENT\n")
+             | VOutside ->
+               (* outside the reference fragment only the round trip is required: the tree, twice *)
+               (match parse_bytes src with
+                | Some (Some (EPair (_, _))) | Some None -> print_string "S E UNPARSEABLE\n"
+                | Some (Some e) -> print_string ("S E " ^ dump e ^ "|" ^ dump e ^ "\n")
+                | None -> print_string "S E UNTOKENIZABLE\n"))
           | _ -> print_string "S E UNTOKENIZABLE\n"
         end
       | _ -> print_string "R BADCASE\n"; print_string "S BADCASE-IN-GENERATOR\n"
